@@ -39,7 +39,7 @@ PREFIX = _fallback_prefix()
 
 def h_marker(body: str) -> bool:
     """
-    pre: len(body) <= 6
+    pre: len(body) <= 3
     post: _
     """
     attrs = parse_exps_meta_attributes(PREFIX + body)
@@ -153,7 +153,7 @@ OBLIGATIONS = [
      "stubs": ["compile stage (ANTLR) untraced on concrete text"]},
     {"id": "C06.S2", "module": __name__, "func": "h_marker",
      "what": "for every body, the fallback prefix read by parse_exps_meta_attributes yields is-ssb-script = true",
-     "timeout": {"quick": 200, "thorough": 900}, "bounds": "|body| <= 6, prefix taken from the real fallback branch",
+     "timeout": {"quick": 200, "thorough": 900}, "bounds": "|body| <= 3, prefix taken from the real fallback branch",
      "encodes": ["explorerscript.ssb_converting.compiler.meta_attributes.parse_exps_meta_attributes",
                  "explorerscript.ssb_converting.ssb_decompiler.ExplorerScriptSsbDecompiler.convert"]},
     {"id": "C06.S2b", "module": __name__, "func": "h_dispatch",
